@@ -5,7 +5,8 @@ GetStateRoot / Init / ResetState over the DataMPTAux records with their real key
 lemmas `Proofs/StateCommitRoots{KV,Inv}.lean`.
 
 Histories are lists of `Op`: a stored block, a block whose batch was applied by AddMPTBatch but that
-was rejected afterwards (nothing committed), a state reset to any height, a process restart. State
+was rejected afterwards (nothing committed), a state reset to any height, a process restart, a signed
+("validated") state root arriving from the network (AddStateRoot: whatever it carries, verified or not). State
 roots are never garbage-collected by the module (GC removes trie nodes only, module.go:300-333), so
 "retained" = not removed by a reset.
 -/
@@ -43,6 +44,13 @@ theorem inv_step (O : TrieOps T) (hre : ∀ t, O.reopen (O.rootOf t) = t) (h32 :
       simp only [Option.some.injEq] at hs; subst hs
       exact inv_restart O hre h32 s hi m' hm
     · simp only [Option.some.injEq] at hs; subst hs; exact hi
+  | validated sr v =>
+    simp only [step] at hs
+    split at hs
+    · rename_i hidx
+      simp only [Option.some.injEq] at hs; subst hs
+      exact inv_validated O h32 s hi sr v hidx
+    · cases hs
 
 theorem inv_run (O : TrieOps T) (hre : ∀ t, O.reopen (O.rootOf t) = t) (h32 : ∀ t, (O.rootOf t).length = 32)
     (ops : List Op) : ∀ (s s' : St T), Inv O s → run O s ops = some s' → Inv O s' := by
@@ -122,6 +130,11 @@ theorem chain_sub (O : TrieOps T) (ops : List Op) : ∀ (s s' : St T), run O s o
           split at hs
           · simp only [Option.some.injEq] at hs; subst hs; exact Or.inl h1
           · simp only [Option.some.injEq] at hs; subst hs; exact Or.inl h1
+        | validated sr v =>
+          simp only [step] at hs
+          split at hs
+          · simp only [Option.some.injEq] at hs; subst hs; exact Or.inl h1
+          · cases hs
       · exact Or.inr (List.mem_cons_of_mem _ h1)
 
 /-- **C03.R2 — the recorded root of every retained height commits exactly to the storage of that
@@ -220,5 +233,22 @@ example : ∃ s, run toyOps (genesis toyOps) toyHistory = some s ∧
       rcases hb with rfl | rfl | rfl | rfl <;> (intro c hc; simp at hc; subst hc; simp [toyKey]))
     _ rfl 2 (by decide)
   exact ⟨r, hr, (hk toyKey).trans (by decide)⟩
+
+-- validated roots: a signed root for height 1 with the right root replaces the record's witness only; a
+-- signed root with another root hash (ErrStateMismatch), an unverified one and a second signed one for an
+-- already witnessed record change nothing; `GetStateRoot 1` keeps committing to the same storage
+def toyValidated : List Op :=
+  [.block [(toyKey, some [1])], .block [(toyKey, some [2])],
+   .validated { index := 1, root := toyOps.rootOf (some 7), wit := [1, 9] } true,
+   .validated { index := 1, root := toyOps.rootOf (some 2), wit := [1, 8] } false,
+   .validated { index := 1, root := toyOps.rootOf (some 2), wit := [1, 7] } true,
+   .validated { index := 1, root := toyOps.rootOf (some 2), wit := [1, 6] } true,
+   .block [(toyKey, none)]]
+
+example : ∃ s, run toyOps (genesis toyOps) toyValidated = some s ∧
+    getStateRoot s.m 1 = some { index := 1, root := toyOps.rootOf (some 2), wit := [1, 7] } ∧
+    kvGet s.m.store validatedKey = some (le32 1) ∧ s.m.localHeight = 2 := by
+  refine ⟨_, rfl, ?_⟩
+  decide
 
 end NeoModel.StateCommit.Roots
